@@ -247,7 +247,7 @@ func (r *run) Do(op string) string {
 		case res := <-p.done:
 			delete(r.calls, f[1])
 			return "done:" + res + " " + r.snapshot()
-		case <-time.After(5 * time.Second):
+		case <-time.After(60 * time.Second):
 			return "hang"
 		}
 	case "tresume": // tresume A : let the parked call finish
@@ -264,7 +264,7 @@ func (r *run) Do(op string) string {
 		case res := <-p.done:
 			delete(r.calls, f[1])
 			return "done:" + res + " " + r.snapshot()
-		case <-time.After(5 * time.Second):
+		case <-time.After(60 * time.Second):
 			return "hang"
 		}
 	}
